@@ -9,6 +9,7 @@ root map).  No assumption on how bytes are mapped to values.
 """
 import itertools
 import math
+import random
 from collections import Counter
 
 RULE = ("uniformity: case = (sampler, range size / bit size, offset, step); every case enumerates all tapes of the first draw "
@@ -45,7 +46,8 @@ def finalize(agg, tier):
     c = agg["counters"]
     out = []
     for name in ("tapes_enumerated", "ranges_decided", "restart_checked", "bit_sizes_decided", "shuffle_orders_decided",
-                 "sample_decided", "consumer_keys", "consumer_rejections_seen", "hook_random_range_calls", "hook_random_calls"):
+                 "sample_decided", "consumer_keys", "consumer_rejections_seen", "hook_random_range_calls", "hook_random_calls",
+                 "long_rejection_chains_checked"):
         if not c.get(name):
             out.append("deciding counter %s is zero" % name)
     return out
@@ -100,6 +102,31 @@ def decide_uniform(ctx, name, f, domain, desc, restart_samples=2):
                       "(the map from the next draw to results differs from the first draw's)",
                       lambda: dict(w(), rejected_prefix=r.hex()))
             ctx.count("restart_checked")
+        # ... and after a LONG run of rejected draws as well (a retry budget that runs out must not hand out a rejected
+        # candidate): below R copies of a rejected tape a sample of next draws is probed; each must give what it gives as
+        # the very first draw
+        r = rej[-1]
+        rnd = random.Random(len(lvl["leaves"]) * 31 + len(rej))
+        acc = sorted(lvl["leaves"])
+        sample = [acc[0], acc[-1]] + rnd.sample(acc, min(len(acc), 16)) + [rej[0], rej[-1]] + rnd.sample(rej, min(len(rej), 2))
+        for R in (3, 128, 129, 300):
+            bad = None
+            for p_ in sample:
+                try:
+                    got = tapetree.probe(f, r * R + p_)
+                except RecursionError:
+                    ctx.count("long_rejection_chain_recursion_limit")
+                    break
+                ctx.count("tapes_enumerated")
+                want = ("leaf", lvl["leaves"][p_], len(r) * R + len(p_)) if p_ in lvl["leaves"] else ("more", None)
+                if got[0] != want[0] or (got[0] == "leaf" and got[1:] != want[1:]):
+                    bad = (p_, got, want)
+                    break
+            ctx.check(bad is None, "uniform:%s:state-carried-over-rejection" % name,
+                      "after a long run of rejected draws the sampler does not behave as after none "
+                      "(the next draw gives another result than the same bytes as first draw)",
+                      lambda: dict(w(), rejected_prefix=r.hex(), repeated=R, next_draw=bad[0].hex(), got=repr(bad[1]), expected=repr(bad[2])))
+            ctx.count("long_rejection_chains_checked")
     return ok, lvl
 
 
